@@ -176,9 +176,10 @@ def sys_tape(E, st):
     # (ghost keys starting with '_' are not havocked at loop cuts)
     oid = st.ghost.get('_sys_tape_oid')
     if oid is None or oid not in st.heap:
-        if not (st.frames and st.frame.spec_mode):
-            import inspect
-            if any(f.function == '_cut_loop' for f in inspect.stack(0)):
+        import inspect
+        fns = [f.function for f in inspect.stack(0)]
+        if '_cut_loop' in fns and 'eval_value' not in fns:      # (clause evaluation works on a fork: harmless there)
+            if True:
                 # the body of a loop cut by an invariant runs from an ARBITRARY iteration: creating the system tape there
                 # (cursor = its initial value) would be wrong for every iteration but the first
                 raise Unsupported('first use of the system RNG inside a loop cut by an invariant (peel the first iteration)')
@@ -270,6 +271,11 @@ def m_random_new(E, st, args, kw):
 TAPE_T = 'obj:native.Tape'
 
 
+def sys_untouched(tp):
+    """clause: when the entropy comes from a caller tape (id != 0) the system RNG is not read"""
+    return '(old(%s.g_id) != 0) ==> systape().g_pos == old(systape().g_pos)' % tp
+
+
 def add_entropy_model(reg):
     reg.add(ClassContract('native.Tape', fields={'g_id': 'pos', 'g_pos': 'nat'}, valid=['self.g_pos >= 0'], abstract=True))
     reg.add(ClassContract('native.SysRNG', fields={'read': TAPE_T}, abstract=True))
@@ -278,7 +284,9 @@ def add_entropy_model(reg):
                      modifies=['self.g_pos'], options={'exact': True},
                      assumed='entropy model: randfunc(n) / os.urandom(n) returns the next n bytes of its tape and advances the '
                              'cursor by n (DESIGN 2.3 ghost tape); unchecked: this is the model of the environment'))
+    # (base.py models the system source read-by-read for other areas; the integer/random areas need the cursor model)
     reg.overrides['os.urandom'] = BuiltinV('os.urandom', m_urandom)
+    reg.overrides['Crypto.Random.get_random_bytes'] = reg.overrides['os.urandom']
     reg.models['Crypto.Random.new'] = m_random_new
     return reg
 
@@ -294,10 +302,16 @@ def add_lemmas(reg):
     # ... and a digit >= H gives a number >= H*P
     reg.add(Contract(L + 'radix_ge', params=dict(I4), requires=['a >= d', 'b >= 0', 'c >= 0'],
                      ensures={'ge': 'a * c + b >= d * c'}, result='bool', returns='True', modifies=[]))
+    I3 = {'a': 'int', 'b': 'int', 'c': 'int'}
+    reg.add(Contract(L + 'ceil_unique', params=dict(I3), requires=['b > 0', 'c * b >= a', '(c - 1) * b < a'],
+                     ensures={'eq': 'c == (a + b - 1) // b'}, result='bool', returns='True', modifies=[]))
+    reg.add(Contract(L + 'range_index', params=dict(I3), requires=['b > 0', '0 <= c', 'c < (a + b - 1) // b'],
+                     ensures={'lt': 'c * b < a', 'mult': '(c * b) % b == 0'}, result='bool', returns='True', modifies=[]))
     return reg
 
 
-LEMMA_TARGETS = ['spec.integer.lemma_radix_lt', 'spec.integer.lemma_radix_ge']
+LEMMA_TARGETS = ['spec.integer.lemma_radix_lt', 'spec.integer.lemma_radix_ge', 'spec.integer.lemma_ceil_unique',
+                 'spec.integer.lemma_range_index']
 
 
 def lemma_units(prop, prefix, registry):
